@@ -1,106 +1,156 @@
-(* C13: instantiate the table-level theorems with the GENERATED encoders and probe steps. *)
+(* C13: instantiate the table-level theorems with the GENERATED encoders, probe steps and bucket bookkeeping
+   (UpdateMaxProbe / GetMaxProbe / GetNextBucketIndex / AddCrt / Remove / pvSetEmpty of the bucket classes). *)
 From Coq Require Import ZArith Bool List Lia.
 From MomoCommon Require Import GenPrelude.
-From C13 Require Gen_Open2N2 Gen_OpenN1 Gen_Open8 Open2N2_Proofs OpenN1_Proofs.
+From C13 Require Gen_Open2N2 Gen_Open2N2_ops Gen_OpenN1 Gen_OpenN1_ops Gen_Open8 Open2N2_Proofs OpenN1_Proofs BucketOps.
 From C13 Require Import ProbeSeq OpenTable.
 Import ListNotations.
 Local Open Scope Z_scope.
 
-Definition upd2 (s : Z -> Z) (p : Z) : Z -> Z :=
-  match Gen_Open2N2.UpdateMaxProbe s p with Ok (_, s') => s' | _ => s end.
+Definition Arg : Type := (Z * Z * Z * Z)%type.   (* the remaining size_t arguments of AddCrt / Remove: arbitrary *)
 
-Lemma pow_le_63 n : 0 <= n <= 63 -> 2 ^ n <= 2 ^ 63.
-Proof. intros. apply Z.pow_le_mono_r; lia. Qed.
+(* ------------------------------------------------------------------ Open2N2<3> *)
+Definition o2_step n h := step n Gen_Open2N2.GetNextBucketIndex 3 h BucketOps.O2.st BucketOps.O2.updP Arg BucketOps.O2.addP BucketOps.O2.remP.
+Definition o2_add n h := add n Gen_Open2N2.GetNextBucketIndex 3 h BucketOps.O2.st BucketOps.O2.updP Arg BucketOps.O2.addP.
+Definition o2_find n h := find n Gen_Open2N2.GetNextBucketIndex h BucketOps.O2.st BucketOps.O2.dec.
+Definition o2_empty : table BucketOps.O2.st := {| bk := fun _ => []; bd := fun _ => BucketOps.O2.empty |}.
 
-Section O2.
-Variable n : Z. Hypothesis Hn : 0 <= n <= 63.
-Lemma upd2_good b p : Open2N2_Proofs.enc_inv b -> 0 <= p < 2 ^ n -> Open2N2_Proofs.enc_inv (upd2 b p).
-Proof.
-  intros Hb Hp. pose proof (pow_le_63 n Hn).
-  destruct (Open2N2_Proofs.update_spec b p Hb ltac:(lia)) as (s' & Hr & Hi & _). unfold upd2. rewrite Hr. exact Hi.
-Qed.
-Lemma upd2_covers b p : Open2N2_Proofs.enc_inv b -> 0 <= p < 2 ^ n -> p <= Gen_Open2N2.pvGetMaxProbe (upd2 b p).
-Proof.
-  intros Hb Hp. pose proof (pow_le_63 n Hn).
-  destruct (Open2N2_Proofs.update_spec b p Hb ltac:(lia)) as (s' & Hr & _ & Hge & _). unfold upd2. rewrite Hr. exact Hge.
-Qed.
-Lemma upd2_keeps b p q : Open2N2_Proofs.enc_inv b -> 0 <= p < 2 ^ n -> q < 2 ^ n ->
-  q <= Gen_Open2N2.pvGetMaxProbe b -> q <= Gen_Open2N2.pvGetMaxProbe (upd2 b p).
-Proof.
-  intros Hb Hp _ Hq. pose proof (pow_le_63 n Hn).
-  destruct (Open2N2_Proofs.update_spec b p Hb ltac:(lia)) as (s' & Hr & _ & _ & Hmono & _). unfold upd2. rewrite Hr.
-  unfold Open2N2_Proofs.decode in Hmono. lia.
-Qed.
-End O2.
+Lemma o2_add_spec a b : BucketOps.O2.good b -> 0 <= BucketOps.O2.cnt b < Z.of_nat 3 ->
+  BucketOps.O2.good (BucketOps.O2.addP a b) /\ BucketOps.O2.dec (BucketOps.O2.addP a b) = BucketOps.O2.dec b /\
+  BucketOps.O2.cnt (BucketOps.O2.addP a b) = BucketOps.O2.cnt b + 1.
+Proof. intros Hg Hc. apply BucketOps.O2.add_spec; [exact Hg|lia]. Qed.
+Lemma o2_rem_spec a b b' : BucketOps.O2.good b -> 0 < BucketOps.O2.cnt b <= Z.of_nat 3 -> BucketOps.O2.remP a b = Some b' ->
+  BucketOps.O2.good b' /\ BucketOps.O2.dec b' = BucketOps.O2.dec b /\ BucketOps.O2.cnt b' = BucketOps.O2.cnt b - 1.
+Proof. intros Hg Hc. apply BucketOps.O2.rem_spec; [exact Hg|lia]. Qed.
 
 (* Open2N2: every reachable table finds every present key; "full" only when all buckets are full *)
-Theorem open2n2_present_key_found n cap h ops b k :
+Theorem open2n2_present_key_found n h ops b k :
   0 <= n <= 63 -> (forall k, 0 <= h k < 2 ^ n) ->
-  let s := fold_left (step n Gen_Open2N2.GetNextBucketIndex cap h (Z -> Z) upd2) ops
-                     {| bk := fun _ => []; bd := fun _ => (fun _ => 0) |} in
-  In k (bk _ s b) -> find n Gen_Open2N2.GetNextBucketIndex h (Z -> Z) Gen_Open2N2.pvGetMaxProbe s k = true.
+  let s := fold_left (o2_step n h) ops o2_empty in
+  In k (bk _ s b) -> o2_find n h s k = true.
 Proof.
-  intros Hn Hh. apply (present_key_found_all_histories n Hn Gen_Open2N2.GetNextBucketIndex cap h (Z -> Z)
-    Open2N2_Proofs.enc_inv Gen_Open2N2.pvGetMaxProbe upd2 (upd2_good n Hn) (upd2_covers n Hn) (upd2_keeps n Hn)).
-  exact Open2N2_Proofs.enc_inv_empty.
+  intros Hn Hh. unfold o2_step, o2_find, o2_empty.
+  apply (present_key_found_all_histories n Hn Gen_Open2N2.GetNextBucketIndex 3%nat h BucketOps.O2.st
+    BucketOps.O2.good BucketOps.O2.dec BucketOps.O2.updP (BucketOps.O2.upd_good n Hn) (BucketOps.O2.upd_covers n Hn)
+    (BucketOps.O2.upd_keeps n Hn) Arg BucketOps.O2.cnt BucketOps.O2.addP BucketOps.O2.remP
+    (BucketOps.O2.upd_cnt n Hn) o2_add_spec o2_rem_spec);
+    apply BucketOps.O2.empty_good.
 Qed.
 
-Theorem open2n2_full_only_if_all_full n cap h (s : table (Z -> Z)) k :
+Theorem open2n2_counts_exact n h ops i :
   0 <= n <= 63 -> (forall k, 0 <= h k < 2 ^ n) ->
-  add n Gen_Open2N2.GetNextBucketIndex cap h (Z -> Z) upd2 s k = None ->
-  forall b, 0 <= b < 2 ^ n -> (cap <= length (bk _ s b))%nat.
+  let s := fold_left (o2_step n h) ops o2_empty in
+  BucketOps.O2.cnt (bd _ s i) = Z.of_nat (length (bk _ s i)) /\ (length (bk _ s i) <= 3)%nat.
 Proof.
-  intros Hn Hh. apply (add_fails_only_if_all_full n Hn Gen_Open2N2.GetNextBucketIndex (open2n2_next_spec n Hn) cap h Hh).
+  intros Hn Hh. unfold o2_step, o2_empty.
+  apply (count_exact_all_histories n Hn Gen_Open2N2.GetNextBucketIndex 3%nat h BucketOps.O2.st
+    BucketOps.O2.good BucketOps.O2.dec BucketOps.O2.updP (BucketOps.O2.upd_good n Hn) (BucketOps.O2.upd_covers n Hn)
+    (BucketOps.O2.upd_keeps n Hn) Arg BucketOps.O2.cnt BucketOps.O2.addP BucketOps.O2.remP
+    (BucketOps.O2.upd_cnt n Hn) o2_add_spec o2_rem_spec);
+    apply BucketOps.O2.empty_good.
 Qed.
 
-(* OpenN1<maxCount> / Open8 *)
+Theorem open2n2_full_only_if_all_full n h (s : table BucketOps.O2.st) k a :
+  0 <= n <= 63 -> (forall k, 0 <= h k < 2 ^ n) ->
+  o2_add n h s k a = None ->
+  forall b, 0 <= b < 2 ^ n -> (3 <= length (bk _ s b))%nat.
+Proof.
+  intros Hn Hh. unfold o2_add.
+  apply (add_fails_only_if_all_full n Hn Gen_Open2N2.GetNextBucketIndex (open2n2_next_spec n Hn) 3%nat h Hh).
+Qed.
+
+(* ------------------------------------------------------------------ OpenN1<maxCount> / Open8 (maxCount = 7) *)
 Definition updN (mc : Z) (s : Z -> Z) (p : Z) : Z -> Z :=
   match Gen_OpenN1.UpdateMaxProbe mc s p with Ok (_, s') => s' | _ => s end.
+Definition n1_dec mc n := fun st => Gen_OpenN1.GetMaxProbe mc st n.
+Definition n1_step rv mc n h := step n Gen_Open8.GetNextBucketIndex (Z.to_nat mc) h (Z -> Z) (updN mc) Arg (BucketOps.N1.addP rv mc) (BucketOps.N1.remP rv mc).
+Definition n1_add rv mc n h := add n Gen_Open8.GetNextBucketIndex (Z.to_nat mc) h (Z -> Z) (updN mc) Arg (BucketOps.N1.addP rv mc).
+Definition n1_find mc n h := find n Gen_Open8.GetNextBucketIndex h (Z -> Z) (n1_dec mc n).
+Definition n1_empty mc : table (Z -> Z) := {| bk := fun _ => []; bd := fun _ => Gen_OpenN1_ops.pvSetEmpty mc (fun _ => 0) |}.
 
 Section N1.
-Variable mc n : Z. Hypothesis Hn : 0 <= n <= 63.
-Lemma updN_good b p : OpenN1_Proofs.enc_inv mc b -> 0 <= p < 2 ^ n -> OpenN1_Proofs.enc_inv mc (updN mc b p).
+Variable rv : bool. Variable mc n : Z. Hypothesis Hmc : 1 <= mc <= 7. Hypothesis Hn : 0 <= n <= 63.
+Lemma updN_all b p : BucketOps.N1.good rv mc b -> 0 <= p < 2 ^ n ->
+  BucketOps.N1.good rv mc (updN mc b p) /\ p <= n1_dec mc n (updN mc b p) /\
+  (forall q, q < 2 ^ n -> q <= n1_dec mc n b -> q <= n1_dec mc n (updN mc b p)) /\
+  BucketOps.N1.cnt rv mc (updN mc b p) = BucketOps.N1.cnt rv mc b.
 Proof.
-  intros Hb Hp. destruct (OpenN1_Proofs.update_spec mc b p n Hb Hn Hp) as (s' & Hr & Hi & _). unfold updN. rewrite Hr. exact Hi.
+  intros (He & H0) Hp. destruct (OpenN1_Proofs.update_spec mc b p n He Hn Hp) as (s' & Hr & Hi & Hge & Hold & Hoth).
+  unfold updN. rewrite Hr. pose proof (BucketOps.N1.sp_range rv mc Hmc) as Hsp.
+  assert (H00 : s' (BucketOps.N1.sp rv mc) = b (BucketOps.N1.sp rv mc)) by (apply Hoth; lia).
+  split; [split; [exact Hi|rewrite H00; exact H0]|]. split; [exact Hge|]. split; [exact Hold|].
+  unfold BucketOps.N1.cnt, Gen_OpenN1_ops.pvGetCount. rewrite (BucketOps.N1.sp_gen rv mc Hmc), H00. reflexivity.
 Qed.
-Lemma updN_covers b p : OpenN1_Proofs.enc_inv mc b -> 0 <= p < 2 ^ n -> p <= Gen_OpenN1.GetMaxProbe mc (updN mc b p) n.
+Lemma updN_good b p : BucketOps.N1.good rv mc b -> 0 <= p < 2 ^ n -> BucketOps.N1.good rv mc (updN mc b p).
+Proof. intros Hb Hp. destruct (updN_all b p Hb Hp) as (H & _). exact H. Qed.
+Lemma updN_covers b p : BucketOps.N1.good rv mc b -> 0 <= p < 2 ^ n -> p <= n1_dec mc n (updN mc b p).
+Proof. intros Hb Hp. destruct (updN_all b p Hb Hp) as (_ & H & _). exact H. Qed.
+Lemma updN_keeps b p q : BucketOps.N1.good rv mc b -> 0 <= p < 2 ^ n -> q < 2 ^ n ->
+  q <= n1_dec mc n b -> q <= n1_dec mc n (updN mc b p).
+Proof. intros Hb Hp Hq Hqb. destruct (updN_all b p Hb Hp) as (_ & _ & Hk & _). apply Hk; assumption. Qed.
+Lemma updN_cnt b p : BucketOps.N1.good rv mc b -> 0 <= p < 2 ^ n -> BucketOps.N1.cnt rv mc (updN mc b p) = BucketOps.N1.cnt rv mc b.
+Proof. intros Hb Hp. destruct (updN_all b p Hb Hp) as (_ & _ & _ & H). exact H. Qed.
+Lemma n1_add_spec a b : BucketOps.N1.good rv mc b -> 0 <= BucketOps.N1.cnt rv mc b < Z.of_nat (Z.to_nat mc) ->
+  BucketOps.N1.good rv mc (BucketOps.N1.addP rv mc a b) /\ n1_dec mc n (BucketOps.N1.addP rv mc a b) = n1_dec mc n b /\
+  BucketOps.N1.cnt rv mc (BucketOps.N1.addP rv mc a b) = BucketOps.N1.cnt rv mc b + 1.
 Proof.
-  intros Hb Hp. destruct (OpenN1_Proofs.update_spec mc b p n Hb Hn Hp) as (s' & Hr & _ & Hge & _). unfold updN. rewrite Hr. exact Hge.
+  intros Hg Hc. destruct (BucketOps.N1.add_spec rv mc Hmc a b Hg ltac:(lia)) as (H1 & H2 & H3).
+  split; [exact H1|]. split; [apply H2|exact H3].
 Qed.
-Lemma updN_keeps b p q : OpenN1_Proofs.enc_inv mc b -> 0 <= p < 2 ^ n -> q < 2 ^ n ->
-  q <= Gen_OpenN1.GetMaxProbe mc b n -> q <= Gen_OpenN1.GetMaxProbe mc (updN mc b p) n.
+Lemma n1_rem_spec a b b' : BucketOps.N1.good rv mc b -> 0 < BucketOps.N1.cnt rv mc b <= Z.of_nat (Z.to_nat mc) ->
+  BucketOps.N1.remP rv mc a b = Some b' ->
+  BucketOps.N1.good rv mc b' /\ n1_dec mc n b' = n1_dec mc n b /\ BucketOps.N1.cnt rv mc b' = BucketOps.N1.cnt rv mc b - 1.
 Proof.
-  intros Hb Hp Hq Hqb. destruct (OpenN1_Proofs.update_spec mc b p n Hb Hn Hp) as (s' & Hr & _ & _ & Hold & _). unfold updN. rewrite Hr.
-  apply Hold; assumption.
+  intros Hg Hc Hr. destruct (BucketOps.N1.rem_spec rv mc Hmc a b b' Hg ltac:(lia) Hr) as (H1 & H2 & H3).
+  split; [exact H1|]. split; [apply H2|exact H3].
 Qed.
 End N1.
 
-Theorem open8_present_key_found mc n cap h ops b k :
-  0 <= n <= 63 -> (forall k, 0 <= h k < 2 ^ n) ->
-  let s := fold_left (step n Gen_Open8.GetNextBucketIndex cap h (Z -> Z) (updN mc)) ops
-                     {| bk := fun _ => []; bd := fun _ => (fun _ => 0) |} in
-  In k (bk _ s b) ->
-  find n Gen_Open8.GetNextBucketIndex h (Z -> Z) (fun st => Gen_OpenN1.GetMaxProbe mc st n) s k = true.
+Theorem open8_present_key_found rv mc n h ops b k :
+  1 <= mc <= 7 -> 0 <= n <= 63 -> (forall k, 0 <= h k < 2 ^ n) ->
+  let s := fold_left (n1_step rv mc n h) ops (n1_empty mc) in
+  In k (bk _ s b) -> n1_find mc n h s k = true.
 Proof.
-  intros Hn Hh. apply (present_key_found_all_histories n Hn Gen_Open8.GetNextBucketIndex cap h (Z -> Z)
-    (OpenN1_Proofs.enc_inv mc) (fun st => Gen_OpenN1.GetMaxProbe mc st n) (updN mc)
-    (updN_good mc n Hn) (updN_covers mc n Hn) (updN_keeps mc n Hn)).
-  unfold OpenN1_Proofs.enc_inv. lia.
+  intros Hmc Hn Hh. unfold n1_step, n1_find, n1_empty.
+  apply (present_key_found_all_histories n Hn Gen_Open8.GetNextBucketIndex (Z.to_nat mc) h (Z -> Z)
+    (BucketOps.N1.good rv mc) (n1_dec mc n) (updN mc) (updN_good rv mc n Hmc Hn) (updN_covers rv mc n Hmc Hn) (updN_keeps rv mc n Hmc Hn)
+    Arg (BucketOps.N1.cnt rv mc) (BucketOps.N1.addP rv mc) (BucketOps.N1.remP rv mc)
+    (updN_cnt rv mc n Hmc Hn) (n1_add_spec rv mc n Hmc) (n1_rem_spec rv mc n Hmc));
+    apply (BucketOps.N1.empty_good rv mc Hmc).
 Qed.
 
-Theorem open8_full_only_if_all_full mc n cap h (s : table (Z -> Z)) k :
-  0 <= n <= 63 -> (forall k, 0 <= h k < 2 ^ n) ->
-  add n Gen_Open8.GetNextBucketIndex cap h (Z -> Z) (updN mc) s k = None ->
-  forall b, 0 <= b < 2 ^ n -> (cap <= length (bk _ s b))%nat.
+Theorem open8_counts_exact rv mc n h ops i :
+  1 <= mc <= 7 -> 0 <= n <= 63 -> (forall k, 0 <= h k < 2 ^ n) ->
+  let s := fold_left (n1_step rv mc n h) ops (n1_empty mc) in
+  BucketOps.N1.cnt rv mc (bd _ s i) = Z.of_nat (length (bk _ s i)) /\ (length (bk _ s i) <= Z.to_nat mc)%nat.
 Proof.
-  intros Hn Hh. apply (add_fails_only_if_all_full n Hn Gen_Open8.GetNextBucketIndex (open8_next_spec n Hn) cap h Hh).
+  intros Hmc Hn Hh. unfold n1_step, n1_empty.
+  apply (count_exact_all_histories n Hn Gen_Open8.GetNextBucketIndex (Z.to_nat mc) h (Z -> Z)
+    (BucketOps.N1.good rv mc) (n1_dec mc n) (updN mc) (updN_good rv mc n Hmc Hn) (updN_covers rv mc n Hmc Hn) (updN_keeps rv mc n Hmc Hn)
+    Arg (BucketOps.N1.cnt rv mc) (BucketOps.N1.addP rv mc) (BucketOps.N1.remP rv mc)
+    (updN_cnt rv mc n Hmc Hn) (n1_add_spec rv mc n Hmc) (n1_rem_spec rv mc n Hmc));
+    apply (BucketOps.N1.empty_good rv mc Hmc).
 Qed.
 
-(* non-vacuity: a 4-bucket Open2N2 table, capacity 1, constant hash: four keys fill it, the fifth add fails *)
+Theorem open8_full_only_if_all_full rv mc n h (s : table (Z -> Z)) k a :
+  0 <= n <= 63 -> (forall k, 0 <= h k < 2 ^ n) ->
+  n1_add rv mc n h s k a = None ->
+  forall b, 0 <= b < 2 ^ n -> (Z.to_nat mc <= length (bk _ s b))%nat.
+Proof.
+  intros Hn Hh. unfold n1_add.
+  apply (add_fails_only_if_all_full n Hn Gen_Open8.GetNextBucketIndex (open8_next_spec n Hn) (Z.to_nat mc) h Hh).
+Qed.
+
+(* non-vacuity: a 4-bucket Open2N2<3> table, constant hash: twelve keys fill it, the thirteenth add fails,
+   removals and re-insertions keep everything found *)
 Example table_example :
-  let st := step 2 Gen_Open2N2.GetNextBucketIndex 1 (fun _ => 1) (Z -> Z) upd2 in
-  let s := fold_left st [OAdd 10; OAdd 11; OAdd 12; OAdd 13] {| bk := fun _ => []; bd := fun _ => (fun _ => 0) |} in
-  map (bk _ s) [0; 1; 2; 3] = [[12]; [10]; [11]; [13]] /\
-  add 2 Gen_Open2N2.GetNextBucketIndex 1 (fun _ => 1) (Z -> Z) upd2 s 14 = None /\
-  find 2 Gen_Open2N2.GetNextBucketIndex (fun _ => 1) (Z -> Z) Gen_Open2N2.pvGetMaxProbe s 13 = true.
+  let a : Arg := (0, 2, 0, 0) in
+  let h := fun _ : Z => 1 in
+  let s := fold_left (o2_step 2 h) (map (fun k => OAdd Arg k a) [10; 11; 12; 13; 14; 15; 16; 17; 18; 19; 20; 21]) o2_empty in
+  map (fun i => length (bk _ s i)) [0; 1; 2; 3] = [3; 3; 3; 3]%nat /\
+  o2_add 2 h s 22 a = None /\
+  o2_find 2 h s 21 = true /\
+  let s2 := fold_left (o2_step 2 h) [ORemove Arg 1 10 (2, 0, 0, 0); OAdd Arg 30 a] s in
+  o2_find 2 h s2 30 = true /\ o2_find 2 h s2 21 = true /\ o2_find 2 h s2 10 = false /\
+  map (fun i => BucketOps.O2.cnt (bd _ s2 i)) [0; 1; 2; 3] = [3; 3; 3; 3].
 Proof. vm_compute. repeat split. Qed.
